@@ -141,8 +141,15 @@ const miniFixedFiltered = `{
 }`
 const miniFixedFilteredInput = "A01 first\nB0010\nA02 second\nB0000\nA03 third\nB0030\nA04 fourth\nB0000\n"
 
+// character data, a comment and a processing instruction after the document element
+const miniXMLTrailerInput = `<?xml version="1.0"?><root><rec id="a"><qty>1</qty></rec><rec id="b"><qty>x</qty></rec></root>
+<!-- end of file -->
+<?done yes?>
+`
+
 func miniSamples() []Sample {
 	return []Sample{
+		{"mini/xml-trailer", "xml", []byte(miniXML), []byte(miniXMLTrailerInput)},
 		{"mini/json-trailing-scalar", "json", []byte(miniJSON), []byte(miniJSONTrailInput)},
 		{"mini/json-trailing-string-object", "json", []byte(miniJSON), []byte(miniJSONTrailInput2)},
 		{"mini/json-trailing-null", "json", []byte(miniJSON), []byte(miniJSONTrailInput3)},
